@@ -39,6 +39,8 @@ def classify(prog, r, san, allow_exit97=False):
             return "%s/hang/cpu-limit" % prog
         return "%s/signal%d" % (prog, r.code)
     if r.kind == 3:
+        if r.code in (2, 3):
+            return None  # the simulator's own file table / arena is full: a resource of the machinery, not judged
         return "%s/hang/budget%d" % (prog, r.code)
     if r.kind == 2:
         return None  # injected crash: the scenario's own doing
